@@ -122,11 +122,11 @@ def src(e):
             return "(%s count)" % src(e[2])
         return "(%s%s)" % (e[1], src(e[2]))
     if k == "where":
-        return "(%s where %s)" % (src(e[1]), src(e[2]))
+        return "(%s where %s)" % (src(e[1]), fsrc(e[2]))
     if k == "darrow":
-        return "(%s => %s)" % (src(e[1]), src(e[2]))
+        return "(%s => %s)" % (src(e[1]), fsrc(e[2]))
     if k == "seqarrow":
-        return "(%s %s %s)" % (src(e[2]), ">>>" if e[1] else ">>", src(e[3]))
+        return "(%s %s %s)" % (src(e[2]), ">>>" if e[1] else ">>", fsrc(e[3]))
     if k == "fn":
         return "(\\%s %s)" % (psrc(e[1]), src(e[2]))
     if k == "dotfn":
@@ -146,7 +146,7 @@ def src(e):
     if k == "let":
         return "(let %s = %s; %s)" % (psrc(e[1]), src(e[2]), src(e[3]))
     if k == "arrow":
-        return "(%s -> %s)" % (src(e[1]), src(e[2]))
+        return "(%s -> %s)" % (src(e[1]), fsrc(e[2]))
     if k == "and":
         return "(%s && %s)" % (src(e[1]), src(e[2]))
     if k == "or":
@@ -161,6 +161,14 @@ def src(e):
     if k == "var":
         return e[1]
     raise ValueError(k)
+
+
+def fsrc(f):
+    """function operand of an arrow-like operator: an explicit \\p body must not be parenthesised
+    (a parenthesised function is an ordinary expression and gets wrapped in the implicit \\. binder)"""
+    if f[0] == "fn":
+        return "\\%s %s" % (psrc(f[1]), fsrc(f[2]) if f[2][0] == "fn" else src(f[2]))
+    return src(f)
 
 
 def src_callee(e):
